@@ -6,6 +6,20 @@ import os
 ROOT = os.path.dirname(os.path.dirname(os.path.abspath(__file__)))
 
 CHECKS = {
+    'C06': ('exploration', '§7 C06',
+            'Recorded concurrent histories of the real engine (3-8 clients, put/get/delete with unique values, tiny memtables, background '
+            'flush/compaction, seeded schedule perturbation at the hook sites) are validated by TLC against the sequential map KevoLin: a '
+            'history is accepted iff a linearisation exists in which failed writes are no-ops and which produces the state observed after '
+            'quiescence and after reopen. Each history is decided exactly; the schedules are sampled - hence exploration.',
+            'schedules sampled; recorded intervals contain the true ones; search time-outs are machinery failures',
+            'TLC trace validation (linearisation search) of recorded histories'),
+    'C07': ('exploration', '§7 C07',
+            'KevoConc (lock acquisition sequences of all public entry points, Go RWMutex semantics) is model-checked for deadlock freedom and '
+            'EveryCallReturns; every pair of the 14 entry points (thorough: triples, quintuples) runs concurrently on the real engine in a '
+            'harness compiled with the race detector under a watchdog, the run summary validated by TLC (TRACE_Conc). Entry points are '
+            'cross-checked by reflection against the interfaces so that a new one cannot go unexercised silently.',
+            'races decided by the Go race detector per execution (stated deviation); schedules sampled; Close concurrent with calls out of scope',
+            'TLC MC of the lock protocol + race-detector runs of spec-derived call mixes + TLC trace acceptance'),
     'C05': ('model_checking', '§7 C05',
             'KevoIter transcribes the merging iterator, the range wrapper and the key filter operationally; TLC checks them against the '
             'abstract definition for all small arrangements (with the inductive invariant CursorsConsistent linking steps). TLC-generated '
